@@ -9,6 +9,7 @@
 package main
 
 import (
+	"github.com/thushan/olla/internal/core/constants"
 	"bufio"
 	"context"
 	"encoding/hex"
@@ -749,6 +750,79 @@ func mixupCase(engine string, rounds, clients int) map[string]any {
 	return map[string]any{"requests_seen": total, "wrong": wrong, "first": first, "rounds": rounds, "clients": clients}
 }
 
+// gatewayCase: several endpoints behind ONE listener (engines of one model runner, path-routed nodes behind one ingress):
+// same scheme://host:port, different base paths, preserve_path on or off per endpoint, round-robin, one long-lived stack.
+// The same few request paths are asked for again and again, so whichever endpoint served a path before, the next one gets
+// the same path.  Each request is emitted as an ordinary "stack" case for the endpoint that served it (X-Olla-Endpoint)
+// and judged by the model's buildTarget: the target is a function of this request and of the endpoint it is sent to.
+func gatewayCase(c *vlib.Cases, r *vlib.Rng, engine string, rounds int) {
+	g := stack.NewBackend("gateway")
+	defer g.Close()
+	g.SetBehaviour(stack.Behaviour{Kind: "ok", Status: 200, Headers: [][2]string{{"Content-Type", "application/json"}}, Body: []byte(`{"ok":true}`)})
+	type ge struct {
+		base     string
+		preserve bool
+	}
+	sets := [][]ge{
+		{{"/engines/llama.cpp", true}, {"/engines/vllm", true}},
+		{{"/api", false}, {"/api/v1", false}, {"/api/v1", true}},
+		{{"/a", true}, {"/a", false}, {"", false}},
+	}
+	set := sets[r.Intn(len(sets))]
+	var eps []stack.EP
+	byName := map[string]ge{}
+	for i, e := range set {
+		n := fmt.Sprintf("g%d", i)
+		byName[n] = e
+		eps = append(eps, stack.EP{Name: n, Type: "openai", Priority: 100, Backend: g, BasePath: e.base, Preserve: e.preserve})
+	}
+	s, err := stack.Start(stack.Opts{Vary: stack.VaryFor("c16.gateway", engine), Engine: engine, Balancer: "round-robin", EPs: eps})
+	if err != nil {
+		c.Emit(map[string]any{"kind": "stack-error", "engine": engine, "impl": map[string]any{"err": err.Error()}})
+		return
+	}
+	defer s.Stop()
+	tailsG := []string{"v1/chat/completions", "v1/models", "models", "v1/embeddings?x=1", "api/v1/models", "v1/v1/x", ""}
+	for i := 0; i < rounds; i++ {
+		rp := "/olla/proxy/"
+		if i%4 == 3 {
+			rp = "/olla/openai/"
+		}
+		tail := tailsG[r.Intn(len(tailsG))]
+		target := rp + tail
+		g.Taken()
+		resp := stack.Do(s.Addr, stack.Request("POST", target, s.Addr, [][2]string{{"Content-Type", "application/json"}}, []byte(`{"input":"hi"}`), false), 5*time.Second)
+		name := ""
+		if v := resp.Header[constants.HeaderXOllaEndpoint]; len(v) > 0 {
+			name = v[0]
+		}
+		e, known := byName[name]
+		taken := g.Taken()
+		if !known || len(taken) != 1 {
+			continue // not served (or not attributable): nothing to judge about a target
+		}
+		pj := map[string]any{}
+		if u, err := url.ParseRequestURI(target); err != nil {
+			pj["err"] = err.Error()
+		} else {
+			pj["err"], pj["path_hex"], pj["rawquery"] = "", hx(u.Path), u.RawQuery
+		}
+		pathHex, perr := "", ""
+		if up, err := url.PathUnescape(taken[0].Path); err == nil {
+			pathHex = hx(up)
+		} else {
+			perr = err.Error()
+		}
+		seen := []seenReq{{Line: taken[0].Method + " " + taken[0].Path, Target: taken[0].Path + "?" + taken[0].RawQuery, PathHex: pathHex, RawQuery: taken[0].RawQuery, ParseErr: perr, Host: taken[0].Host}}
+		c.Emit(map[string]any{"kind": "stack", "engine": engine, "target": target, "route_prefix_hex": hx(rp), "strip_prefix_hex": hx(stripPrefixFor(rp)), "written_prefix_hex": hx(writtenPrefixFor(rp)), "abs_form": false, "parsed": pj,
+			"gateway": name, "ep": epDesc{"http", g.Addr(), hx(e.base), e.preserve}, "impl": map[string]any{"status": fmt.Sprint(resp.Status), "err": resp.Err, "seen": seen, "decoy_hits": 0}})
+		c.Count("stack.gateway." + engine)
+		for n := range byName {
+			s.SetStatus(n, domain.StatusHealthy)
+		}
+	}
+}
+
 func main() {
 	tier := vlib.Tier()
 	r := vlib.NewRng(vlib.Seed())
@@ -757,6 +831,11 @@ func main() {
 	purePart(c, r, thorough)
 	if os.Getenv("VERIF_C16_NOSTACK") == "" {
 		stackPart(c, r.Fork(), thorough)
+		for _, engine := range []string{"sherpa", "olla"} {
+			for k := 0; k < 3; k++ {
+				gatewayCase(c, r.Fork(), engine, map[bool]int{false: 60, true: 600}[thorough])
+			}
+		}
 		for _, engine := range []string{"sherpa", "olla"} {
 			c.Emit(map[string]any{"kind": "mixup", "engine": engine, "impl": mixupCase(engine, map[bool]int{false: 120, true: 1200}[thorough], 32)})
 			c.Count("mixup." + engine)
